@@ -2,6 +2,7 @@
 //! (/verif/lean/PieModel/Build/StdSem.lean). Every call is logged (C09).
 use std::cell::RefCell;
 use std::collections::hash_map::Entry;
+use std::collections::HashMap;
 use std::convert::Infallible;
 use std::fmt;
 
@@ -16,6 +17,29 @@ fn log(s: String) { CHKLOG.with(|l| l.borrow_mut().push(s)); }
 #[derive(Clone, PartialEq, Eq, Hash, Debug)]
 pub struct MK(pub u32);
 impl MapKey for MK { type Value = i64; }
+
+/// A second resource family whose writer TRUNCATES when opened (like a file opened with create+truncate): opening it
+/// before a write has been validated is observable. Resource ids >= 100 in case files.
+#[derive(Clone, PartialEq, Eq, Hash, Debug)]
+pub struct TR(pub u32);
+pub struct TrWriter<'r> { map: &'r mut HashMap<u32, i64>, key: u32 }
+impl TrWriter<'_> {
+  pub fn get(&self) -> Option<i64> { self.map.get(&self.key).copied() }
+  pub fn set(&mut self, v: Option<i64>) { match v { Some(x) => { self.map.insert(self.key, x); } None => { self.map.remove(&self.key); } } }
+}
+impl Resource for TR {
+  type Reader<'rs> = Option<i64>;
+  type Writer<'r> = TrWriter<'r>;
+  type Error = Infallible;
+  fn read<'rs, RS: ResourceState<Self>>(&self, state: &'rs mut RS) -> Result<Option<i64>, Infallible> {
+    Ok(state.get_or_set_default::<HashMap<u32, i64>>().get(&self.0).copied())
+  }
+  fn write<'r, RS: ResourceState<Self>>(&'r self, state: &'r mut RS) -> Result<TrWriter<'r>, Infallible> {
+    let map = state.get_or_set_default_mut::<HashMap<u32, i64>>();
+    map.remove(&self.0); // truncate on open
+    Ok(TrWriter { map, key: self.0 })
+  }
+}
 
 pub type Out = Result<i64, i64>;
 pub fn enc(n: i64) -> Out { if n >= 0 { Ok(n) } else { Err(n) } }
@@ -84,8 +108,39 @@ macro_rules! res_checker {
       }
       fn wrap_error(&self, error: Infallible) -> Self::Error { match error {} }
     }
+    impl ResourceChecker<TR> for $name {
+      type Stamp = $stamp;
+      type Error = $err;
+      fn stamp<RS: ResourceState<TR>>(&self, key: &TR, state: &mut RS) -> Result<Self::Stamp, Self::Error> {
+        let v = key.read(state).unwrap();
+        self.mk_stamp("stamp", key, v)
+      }
+      fn stamp_reader(&self, key: &TR, value: &mut Option<i64>) -> Result<Self::Stamp, Self::Error> {
+        let v = *value;
+        self.mk_stamp("stamp_reader", key, v)
+      }
+      fn stamp_writer(&self, key: &TR, writer: TrWriter<'_>) -> Result<Self::Stamp, Self::Error> {
+        let v = writer.get();
+        self.mk_stamp("stamp_writer", key, v)
+      }
+      #[allow(refining_impl_trait)]
+      fn check<RS: ResourceState<TR>>(&self, key: &TR, state: &mut RS, stamp: &Self::Stamp) -> Result<Option<Self::Stamp>, Self::Error> {
+        let v = key.read(state).unwrap();
+        let $s3 = self; let $v3 = v;
+        if let Some(e) = $cfail {
+          log(format!("rcheck {:?} {:?} {:?} {:?} -> error({})", self, key, v, stamp, e.code()));
+          return Err(e);
+        }
+        let $slf = self; let $v = v;
+        let s: $stamp = $core;
+        let r = if s != *stamp { Some(s) } else { None };
+        log(format!("rcheck {:?} {:?} {:?} {:?} -> {}", self, key, v, stamp, if r.is_none() { "consistent" } else { "inconsistent" }));
+        Ok(r)
+      }
+      fn wrap_error(&self, error: Infallible) -> Self::Error { match error {} }
+    }
     impl $name {
-      fn mk_stamp(&self, route: &str, key: &MK, v: Option<i64>) -> Result<$stamp, $err> {
+      fn mk_stamp<K: std::fmt::Debug>(&self, route: &str, key: &K, v: Option<i64>) -> Result<$stamp, $err> {
         let $s2 = self; let $v2 = v;
         if let Some(e) = $sfail {
           log(format!("{} {:?} {:?} {:?} -> error({})", route, self, key, v, e.code()));
@@ -113,6 +168,13 @@ res_checker!(ExistsRes, bool, Infallible, |_s, v| v.is_some(),
 #[derive(Default, Copy, Clone, Eq, PartialEq, Hash, Debug)]
 pub struct AlwaysRes;
 res_checker!(AlwaysRes, (), Infallible, |_s, _v| (),
+  stamp_fail: |_s, _v| None::<Infallible>, check_fail: |_s, _v| None::<Infallible>);
+
+/// Exact checker for the `TR` family (plays the role of `MapEqualsChecker`, and prints like it).
+#[derive(Default, Copy, Clone, Eq, PartialEq, Hash)]
+pub struct ExactRes;
+impl fmt::Debug for ExactRes { fn fmt(&self, f: &mut fmt::Formatter<'_>) -> fmt::Result { write!(f, "MapEqualsChecker") } }
+res_checker!(ExactRes, Option<i64>, Infallible, |_s, v| v,
   stamp_fail: |_s, _v| None::<Infallible>, check_fail: |_s, _v| None::<Infallible>);
 
 /// Exact checker whose `check` fails with `E(k)` while the current content is `k`.
